@@ -6,6 +6,7 @@ from ..core import AnalysisError, src, qualname_of
 from ..pysym import SymExec, show, subterms, self_call_pred, own_params, mark_self_calls, alternatives, all_calls, str_parts
 from ..rules_pyx import N, C, A
 from .. import logic
+from .. import boolfn as bf
 
 EXPLANATION = (
     'Typestate analysis of the matcher on both sides of its interface (R6.1 provider: Unification.__call__ tests '
@@ -269,38 +270,57 @@ def r_feature_relations(repo, rep, R='R6.5'):
         fn = mod.get(q)
         ps = SymExec(fn).run()
         return fn, ps
-    fn, ps = ret_of('UnaryFeature.unifies')
+    fn = mod.get('UnaryFeature.unifies')
     o = fn.args.args[1].arg
-    got = {show(x) for x in flat(ps[0][0].ret, 'or')} if len(ps) == 1 and ps[0][0].ret else set()
-    want = {show(A(N('self'), 'is_variable')), show(A(N('self'), 'is_ignorable')), show(('cmp', '==', N('self'), N(o)))}
-    rep.check(got == want, R, '%s:%s UnaryFeature.unifies' % (CAT, fn.lineno), 'UnaryFeature.unifies',
-              'a plain feature is compatible when it is a variable, ignorable (absent / nb) or equal', 'UnaryFeature.unifies is %s' % sorted(got))
-    fn, ps = ret_of('UnaryFeature.is_variable')
-    rep.check(len(ps) == 1 and ps[0][0].ret == ('cmp', '==', A(N('self'), 'value'), C('X')), R,
-              '%s:%s UnaryFeature.is_variable' % (CAT, fn.lineno), 'UnaryFeature.is_variable', 'the variable feature is X', 'is_variable is %s' % show(ps[0][0].ret))
-    fn, ps = ret_of('UnaryFeature.is_ignorable')
-    got = {show(x) for x in flat(ps[0][0].ret, 'or')} if len(ps) == 1 and ps[0][0].ret else set()
-    want = {show(('cmp', 'is', A(N('self'), 'value'), C(None))), show(('cmp', '==', A(N('self'), 'value'), C('nb')))}
-    rep.check(got == want, R, '%s:%s UnaryFeature.is_ignorable' % (CAT, fn.lineno), 'UnaryFeature.is_ignorable',
-              'ignorable means absent or nb', 'is_ignorable is %s' % sorted(got))
-    fn, ps = ret_of('TernaryFeature.unifies')
+    SELF = N('self')
+    ok, detail = bf.matches(fn, bf.OR(bf.T(A(SELF, 'is_variable')), bf.T(A(SELF, 'is_ignorable')), bf.T(('cmp', '==', SELF, N(o)))),
+                            no_inline=('is_variable', 'is_ignorable'))
+    rep.check(ok, R, '%s:%s UnaryFeature.unifies' % (CAT, fn.lineno), 'UnaryFeature.unifies',
+              'a plain feature is compatible when it is a variable, ignorable (absent / nb) or equal (%s)' % detail, 'UnaryFeature.unifies: %s' % detail)
+    fn = mod.get('UnaryFeature.is_variable')
+    ok, detail = bf.matches(fn, bf.T(('cmp', '==', A(SELF, 'value'), C('X'))))
+    rep.check(ok, R, '%s:%s UnaryFeature.is_variable' % (CAT, fn.lineno), 'UnaryFeature.is_variable', 'the variable feature is X', 'is_variable: %s' % detail)
+    fn = mod.get('UnaryFeature.is_ignorable')
+    ok, detail = bf.matches(fn, bf.OR(bf.T(('cmp', 'is', A(SELF, 'value'), C(None))), bf.T(('cmp', '==', A(SELF, 'value'), C('nb')))))
+    rep.check(ok, R, '%s:%s UnaryFeature.is_ignorable' % (CAT, fn.lineno), 'UnaryFeature.is_ignorable',
+              'ignorable means absent or nb', 'is_ignorable: %s' % detail)
+    # three-part features: equal, or same keys and every value equal or a variable (X...) on the asking side
+    fn = mod.get('TernaryFeature.unifies')
     o = fn.args.args[1].arg
-    eq_true = keys_false = allv = False
-    for st, out in ps:
-        conds = [(c, p) for c, p, _ in st.conds]
-        if (('cmp', '==', N('self'), N(o)), True) in conds and st.ret == C(True):
-            eq_true = True
-        if any(c[0] == 'cmp' and c[1] == '!=' and 'keys' in show(c) and p for c, p in conds) and st.ret == C(False):
-            keys_false = True
-        if st.ret and st.ret[0] == 'call' and st.ret[1] == N('all'):
-            g = st.ret[2][0]
-            if g[0] == 'genexp':
-                parts = {show(x) for x in flat(g[1], 'or')}
-                allv = len(parts) == 2 and any('startswith' in p_ and "'X'" in p_ for p_ in parts) and any('==' in p_ for p_ in parts) \
-                    and 'zip(self.values(), %s.values())' % o in show(g[2][0][0])
-    rep.check(eq_true and keys_false and allv, R, '%s:%s TernaryFeature.unifies' % (CAT, fn.lineno), 'TernaryFeature.unifies',
-              'three-part features are compatible when equal, or same keys and every value equal or a variable (X...) on the asking side',
-              'TernaryFeature.unifies: equal->True %s, keys differ->False %s, valuewise test %s' % (eq_true, keys_false, allv))
+    paths, vals = bf.paths_of(fn)
+    pairs = ('call', N('zip'), (('call', A(SELF, 'values'), (), ()), ('call', A(N(o), 'values'), (), ())), ())
+    alls = [t for _, v in vals if isinstance(v, tuple) for t in subterms(v)
+            if t[0] == 'call' and t[1] == N('all') and len(t[2]) == 1 and t[2][0][0] in ('genexp', 'listcomp') and len(t[2][0][2]) == 1]
+    allv = False
+    ALL = None
+    for t in alls:
+        it, filt = t[2][0][2][0]
+        if it != pairs or filt:
+            continue
+        el = [x for x in subterms(t[2][0][1]) if x[0] == 'elem' and x[1] == it]
+        if not el:
+            continue
+        v1, v2 = ('unpack', el[0], 0), ('unpack', el[0], 1)
+        want = bf.OR(bf.T(('cmp', '==', v1, v2)), bf.T(('call', A(v1, 'startswith'), (C('X'),), ())))
+        try:
+            okv, _, _ = logic.equivalent([([], t[2][0][1])], want)
+        except ValueError:
+            okv = False
+        if okv:
+            allv = True
+            ALL = t
+    ok = False
+    detail = 'no value-by-value test all(v1 == v2 or v1.startswith("X") for v1, v2 in zip(self.values(), %s.values()))' % o
+    if allv:
+        keys_eq = [a_ for a_ in logic.atoms_of(('and', tuple(logic.path_formula(c) for c, _ in vals))) if a_[0] == 'eq' and 'keys' in show(a_[1]) and 'keys' in show(a_[2])]
+        if len(keys_eq) == 1:
+            want = bf.OR(bf.T(('cmp', '==', SELF, N(o))), bf.AND(('atom', keys_eq[0]), bf.T(ALL)))
+            ok, detail = bf.matches(fn, want)
+        else:
+            detail = 'no single comparison of the two key tuples (%d found)' % len(keys_eq)
+    rep.check(ok, R, '%s:%s TernaryFeature.unifies' % (CAT, fn.lineno), 'TernaryFeature.unifies',
+              'three-part features are compatible when equal, or same keys and every value equal or a variable (X...) on the asking side (%s)' % detail,
+              'TernaryFeature.unifies: %s' % detail)
 
 
 def check(repo, rep, tier):
